@@ -57,6 +57,21 @@ impl VSpec {
             VSpec::Prev(v) => v.apply(a) - 1,
         }
     }
+    /// does the view contain a `Next`/`Prev` step?
+    pub fn has_step(&self) -> bool {
+        match self {
+            VSpec::C(_) | VSpec::V(_) => false,
+            VSpec::Next(_) | VSpec::Prev(_) => true,
+            VSpec::Opp(v) | VSpec::Plus(_, v) | VSpec::TPos(_, v) | VSpec::Times(_, v) | VSpec::TNeg(_, v) => v.has_step(),
+        }
+    }
+    /// all values the view takes over the domains `doms`
+    pub fn values(&self, doms: &[Vec<i32>]) -> Vec<i64> {
+        match self.var() {
+            None => vec![self.apply(&vec![0i64; doms.len().max(1)])],
+            Some(x) => doms.get(x).map(|d| d.iter().map(|w| { let mut a = vec![0i64; doms.len()]; a[x] = *w as i64; self.apply(&a) }).collect()).unwrap_or_default(),
+        }
+    }
     pub fn depth(&self) -> usize {
         match self {
             VSpec::C(_) | VSpec::V(_) => 0,
@@ -160,6 +175,33 @@ pub enum KSpec {
     Abs(VSpec, usize),
     Min(Vec<usize>, usize),
     Max(Vec<usize>, usize),
+    Mul(VSpec, VSpec, usize),
+    Div(VSpec, VSpec, usize),
+    Mod(VSpec, VSpec, usize),
+    AllEq(Vec<usize>),
+    AllDiff(Vec<usize>),
+    Between(usize, usize, usize),
+    /// count(vars, target view, count variable)
+    Count(Vec<usize>, VSpec, usize),
+    /// "atleast" | "atmost" | "exactly", vars, target value, count
+    Card(&'static str, Vec<usize>, i32, i32),
+    Element(Vec<usize>, usize, usize),
+    Table(Vec<usize>, Vec<Vec<i32>>),
+    /// if (cv cop cval) then (tv top tval) [else (ev eop eval)]
+    Ite(&'static str, usize, i32, &'static str, usize, i32, Option<(&'static str, usize, i32)>),
+}
+
+thread_local! {
+    /// declared domains of the current case (filled by `StoreCase::add_var`): the store-dependent
+    /// finding matchers of `KSpec::finding_tag` are evaluated on them
+    static CUR_DOMS: std::cell::RefCell<Vec<Vec<i32>>> = std::cell::RefCell::new(Vec::new());
+}
+
+pub const COND_OPS: [&str; 4] = ["eq", "ne", "gt", "lt"];
+pub const SIMP_OPS: [&str; 6] = ["eq", "ne", "gt", "lt", "ge", "le"];
+
+fn simp_holds(op: &str, x: i64, v: i64) -> bool {
+    match op { "eq" => x == v, "ne" => x != v, "gt" => x > v, "lt" => x < v, "ge" => x >= v, _ => x <= v }
 }
 
 fn join<T: ToString>(v: &[T]) -> String {
@@ -174,6 +216,10 @@ impl KSpec {
             KSpec::LinEqR(..) => "lineqr", KSpec::LinLeR(..) => "linler", KSpec::LinNeR(..) => "linner",
             KSpec::Reif(..) => "reif", KSpec::And(..) => "and", KSpec::Or(..) => "or", KSpec::Not(..) => "not",
             KSpec::Xor(..) => "xor", KSpec::Abs(..) => "abs", KSpec::Min(..) => "min", KSpec::Max(..) => "max",
+            KSpec::Mul(..) => "mul", KSpec::Div(..) => "div", KSpec::Mod(..) => "mod", KSpec::AllEq(..) => "alleq", KSpec::AllDiff(..) => "alldiff",
+            KSpec::Between(..) => "between", KSpec::Count(..) => "count",
+            KSpec::Card(t, ..) => match *t { "atleast" => "atleast", "atmost" => "atmost", _ => "exactly" },
+            KSpec::Element(..) => "element", KSpec::Table(..) => "table", KSpec::Ite(..) => "ite",
         }
     }
     pub fn tokens(&self) -> String {
@@ -200,6 +246,23 @@ impl KSpec {
             KSpec::Abs(x, s) => format!("abs {} {s}", x.tokens()),
             KSpec::Min(xs, r) => format!("min {} {} {r}", xs.len(), join(xs)),
             KSpec::Max(xs, r) => format!("max {} {} {r}", xs.len(), join(xs)),
+            KSpec::Mul(x, y, s) => format!("mul {} {} {s}", x.tokens(), y.tokens()),
+            KSpec::Div(x, y, s) => format!("div {} {} {s}", x.tokens(), y.tokens()),
+            KSpec::Mod(x, y, s) => format!("mod {} {} {s}", x.tokens(), y.tokens()),
+            KSpec::AllEq(xs) => format!("alleq {} {}", xs.len(), join(xs)),
+            KSpec::AllDiff(xs) => format!("alldiff {} {}", xs.len(), join(xs)),
+            KSpec::Between(l, m, u) => format!("between {l} {m} {u}"),
+            KSpec::Count(xs, t, c) => format!("count {} {} {} {c}", xs.len(), join(xs), t.tokens()),
+            KSpec::Card(ty, xs, tv, n) => format!("{ty} {} {} {tv} {n}", xs.len(), join(xs)),
+            KSpec::Element(arr, i, v) => format!("element {} {} {i} {v}", arr.len(), join(arr)),
+            KSpec::Table(xs, ts) => {
+                let rows: Vec<String> = ts.iter().map(|t| join(t)).collect();
+                format!("table {} {} {} {}", xs.len(), join(xs), ts.len(), rows.join(" "))
+            }
+            KSpec::Ite(cop, cv, cval, top, tv, tval, els) => {
+                let e = match els { None => "noelse".to_string(), Some((op, x, v)) => format!("else {op} {x} {v}") };
+                format!("ite {cop} {cv} {cval} {top} {tv} {tval} {e}")
+            }
         }
     }
     /// variables the constraint mentions
@@ -215,6 +278,12 @@ impl KSpec {
             KSpec::Not(o, r) => vec![*o, *r],
             KSpec::Xor(x, y, r) => vec![*x, *y, *r],
             KSpec::Abs(x, s) => x.var().into_iter().chain(Some(*s)).collect(),
+            KSpec::Mul(x, y, s) | KSpec::Div(x, y, s) | KSpec::Mod(x, y, s) => x.var().into_iter().chain(y.var()).chain(Some(*s)).collect(),
+            KSpec::AllEq(xs) | KSpec::AllDiff(xs) | KSpec::Card(_, xs, _, _) | KSpec::Table(xs, _) => xs.clone(),
+            KSpec::Between(l, m, u) => vec![*l, *m, *u],
+            KSpec::Count(xs, t, c) => xs.iter().cloned().chain(t.var()).chain(Some(*c)).collect(),
+            KSpec::Element(arr, i, v) => arr.iter().cloned().chain([*i, *v]).collect(),
+            KSpec::Ite(_, cv, _, _, tv, _, els) => [*cv, *tv].into_iter().chain(els.map(|e| e.1)).collect(),
         };
         v.sort();
         v.dedup();
@@ -248,11 +317,46 @@ impl KSpec {
             KSpec::Abs(x, s) => a[*s] == x.apply(a).abs(),
             KSpec::Min(xs, r) => xs.is_empty() || a[*r] == xs.iter().map(|x| a[*x]).min().unwrap(),
             KSpec::Max(xs, r) => xs.is_empty() || a[*r] == xs.iter().map(|x| a[*x]).max().unwrap(),
+            KSpec::Mul(x, y, s) => x.apply(a) * y.apply(a) == a[*s],
+            // `/` is real division (`ValI / ValI` is a float in selen): the quotient must be exact
+            KSpec::Div(x, y, s) => y.apply(a) != 0 && a[*s] * y.apply(a) == x.apply(a),
+            // `%` is Rust's truncated remainder
+            KSpec::Mod(x, y, s) => y.apply(a) != 0 && a[*s] == x.apply(a) % y.apply(a),
+            KSpec::AllEq(xs) => xs.iter().all(|x| a[*x] == a[xs[0]]),
+            // positions pairwise different (a variable listed twice can never differ from itself)
+            KSpec::AllDiff(xs) => (0..xs.len()).all(|i| (0..i).all(|j| a[xs[i]] != a[xs[j]])),
+            KSpec::Between(l, m, u) => a[*l] <= a[*m] && a[*m] <= a[*u],
+            KSpec::Count(xs, t, c) => a[*c] == xs.iter().filter(|x| a[**x] == t.apply(a)).count() as i64,
+            KSpec::Card(ty, xs, tv, n) => {
+                let k = xs.iter().filter(|x| a[**x] == *tv as i64).count() as i64;
+                match *ty { "atleast" => k >= *n as i64, "atmost" => k <= *n as i64, _ => k == *n as i64 }
+            }
+            KSpec::Element(arr, i, v) => a[*i] >= 0 && (a[*i] as usize) < arr.len() && a[*v] == a[arr[a[*i] as usize]],
+            KSpec::Table(xs, ts) => ts.iter().any(|t| t.len() == xs.len() && t.iter().zip(xs).all(|(w, x)| *w as i64 == a[*x])),
+            KSpec::Ite(cop, cv, cval, top, tv, tval, els) => {
+                if simp_holds(cop, a[*cv], *cval as i64) { simp_holds(top, a[*tv], *tval as i64) }
+                else { match els { None => true, Some((op, x, v)) => simp_holds(op, a[*x], *v as i64) } }
+            }
         }
     }
     /// kinds whose pinned implementation is known not to check / propagate (listed findings)
     pub fn finding_tag(&self) -> &'static str {
+        let doms = CUR_DOMS.with(|d| d.borrow().clone());
+        self.finding_tag_in(&doms)
+    }
+    /// the known-finding matchers, the store-dependent ones evaluated on `doms`
+    pub fn finding_tag_in(&self, doms: &[Vec<i32>]) -> &'static str {
+        let hull = |v: &VSpec| -> (i64, i64) { let w = v.values(doms); (w.iter().cloned().min().unwrap_or(0), w.iter().cloned().max().unwrap_or(0)) };
         match self {
+            // a float bound (quotient) pushed through Next/Prev is not shifted
+            // divisor range containing 0: the propagator returns without checking anything
+            KSpec::Div(_, y, _) | KSpec::Mod(_, y, _) if { let h = hull(y); h.0 <= 0 && h.1 >= 0 } => "zero-in-divisor-range",
+            KSpec::Mul(x, y, _) if x.has_step() || y.has_step() => "next-prev-float-bound",
+            KSpec::Div(_, y, _) if y.has_step() => "next-prev-float-bound",
+            KSpec::Mod(x, y, _) if hull(x).0 < 0 || hull(y).0 < 0 => "modulo-negative",
+            KSpec::Mod(x, y, _) if { let (hx, hy) = (hull(x), hull(y)); hy.0 != hy.1 && hy.1 - hy.0 <= 10 && hx.1 - hx.0 > 10 } => "modulo-dividend-boundary-sampling",
+            KSpec::Mod(_, y, _) if { let hy = hull(y); hy.1 - hy.0 > 10 } => "modulo-divisor-boundary-sampling",
+            KSpec::AllEq(xs) if xs.is_empty() => "allequal-empty-fails",
             KSpec::Neq(..) => "neq-noop",
             KSpec::LinEq(cs, ..) | KSpec::LinLe(cs, ..) | KSpec::LinNe(cs, ..) if cs.iter().all(|c| *c == 0) => "lin-all-zero-coefficients",
             KSpec::LinEqR(cs, ..) | KSpec::LinLeR(cs, ..) | KSpec::LinNeR(cs, ..) if cs.iter().all(|c| *c == 0) => "lin-all-zero-coefficients",
@@ -273,6 +377,9 @@ impl KSpec {
                             0 => self.props.less_than_or_equals(self.x, y),
                             1 => self.props.equals(self.x, y),
                             2 => self.props.not_equals(self.x, y),
+                            4 => self.props.mul(self.x, y, self.s.unwrap()),
+                            5 => self.props.div(self.x, y, self.s.unwrap()),
+                            6 => self.props.modulo(self.x, y, self.s.unwrap()),
                             _ => self.props.add(self.x, y, self.s.unwrap()),
                         }
                     }
@@ -285,8 +392,41 @@ impl KSpec {
             type Out = PropId;
             fn call<V: View>(self, x: V) -> PropId { self.props.abs(x, self.s) }
         }
+        struct CountK<'a> { props: &'a mut Propagators, vars: Vec<VarId>, c: VarId }
+        impl<'a> ViewK for CountK<'a> {
+            type Out = PropId;
+            fn call<V: View>(self, t: V) -> PropId { self.props.count_constraint(self.vars, t, self.c) }
+        }
         let vs = |xs: &Vec<usize>| -> Vec<VarId> { xs.iter().map(|x| ids[*x]).collect() };
         match self {
+            KSpec::Mul(x, y, s) => level1(x, ids, Bin { props, ids, y, kind: 4, s: Some(ids[*s]) }),
+            KSpec::Div(x, y, s) => level1(x, ids, Bin { props, ids, y, kind: 5, s: Some(ids[*s]) }),
+            KSpec::Mod(x, y, s) => level1(x, ids, Bin { props, ids, y, kind: 6, s: Some(ids[*s]) }),
+            KSpec::AllEq(xs) => props.all_equal(vs(xs)),
+            KSpec::AllDiff(xs) => props.all_different(vs(xs)),
+            KSpec::Between(l, m, u) => props.between_constraint(ids[*l], ids[*m], ids[*u]),
+            KSpec::Count(xs, t, c) => level1(t, ids, CountK { props, vars: vs(xs), c: ids[*c] }),
+            KSpec::Card(ty, xs, tv, n) => match *ty {
+                "atleast" => props.at_least_constraint(vs(xs), *tv, *n),
+                "atmost" => props.at_most_constraint(vs(xs), *tv, *n),
+                _ => props.exactly_constraint(vs(xs), *tv, *n),
+            },
+            KSpec::Element(arr, i, v) => props.element(vs(arr), ids[*i], ids[*v]),
+            KSpec::Table(xs, ts) => props.table_constraint(vs(xs), ts.iter().map(|t| t.iter().map(|w| Val::ValI(*w)).collect()).collect()),
+            KSpec::Ite(cop, cv, cval, top, tv, tval, els) => {
+                use selen::constraints::props::conditional::{Condition, SimpleConstraint};
+                let simp = |op: &str, x: usize, v: i32| -> SimpleConstraint {
+                    let (x, v) = (ids[x], Val::ValI(v));
+                    match op {
+                        "eq" => SimpleConstraint::Equals(x, v), "ne" => SimpleConstraint::NotEquals(x, v),
+                        "gt" => SimpleConstraint::GreaterThan(x, v), "lt" => SimpleConstraint::LessThan(x, v),
+                        "ge" => SimpleConstraint::GreaterOrEqual(x, v), _ => SimpleConstraint::LessOrEqual(x, v),
+                    }
+                };
+                let (c, v) = (ids[*cv], Val::ValI(*cval));
+                let cond = match *cop { "eq" => Condition::Equals(c, v), "ne" => Condition::NotEquals(c, v), "gt" => Condition::GreaterThan(c, v), _ => Condition::LessThan(c, v) };
+                props.if_then_else_constraint(cond, simp(top, *tv, *tval), els.map(|(op, x, v)| simp(op, x, v)))
+            }
             KSpec::Leq(x, y) => level1(x, ids, Bin { props, ids, y, kind: 0, s: None }),
             KSpec::Eq(x, y) => level1(x, ids, Bin { props, ids, y, kind: 1, s: None }),
             KSpec::Neq(x, y) => level1(x, ids, Bin { props, ids, y, kind: 2, s: None }),
@@ -337,8 +477,12 @@ pub struct StoreCase {
 }
 
 impl StoreCase {
-    pub fn new() -> Self { StoreCase { vars: Vars::new(), ids: vec![] } }
+    pub fn new() -> Self {
+        CUR_DOMS.with(|d| d.borrow_mut().clear());
+        StoreCase { vars: Vars::new(), ids: vec![] }
+    }
     pub fn add_var(&mut self, out: &mut Out, values: &[i32]) {
+        CUR_DOMS.with(|d| { let mut v = values.to_vec(); v.sort(); d.borrow_mut().push(v) });
         let id = self.vars.new_var_with_values(values.to_vec());
         self.ids.push(id);
         out.emit(format!("st.var {}", join(values)), format!("var {}", self.ids.len() - 1));
@@ -414,7 +558,7 @@ pub fn do_prune(sc: &mut StoreCase, out: &mut Out, k: &KSpec) -> bool {
     if space <= 200_000 {
         let mut sols: Vec<Vec<i64>> = Vec::new();
         for_each_assignment(&before, &kvars, &mut |a| if k.holds(a) { sols.push(a.to_vec()) });
-        let tag = k.finding_tag();
+        let tag = k.finding_tag_in(&before);
         match &res {
             None => {
                 out.stat("prune.result.fail");
@@ -569,6 +713,22 @@ pub fn rand_view(r: &mut Rng, nvars: usize, depth: usize) -> VSpec {
     }
 }
 
+/// a view without `Next`/`Prev` (those mistreat the float bounds of mul/div: a separate finding)
+pub fn rand_view_nostep(r: &mut Rng, nvars: usize, depth: usize) -> VSpec {
+    loop {
+        let v = rand_view(r, nvars, depth);
+        if !v.has_step() { return v; }
+    }
+}
+
+fn rand_arith_view(r: &mut Rng, nvars: usize) -> VSpec {
+    match r.below(12) {
+        0 => rand_view(r, nvars, 1),
+        1..=4 => rand_view_nostep(r, nvars, 1),
+        _ => rand_view_nostep(r, nvars, 0),
+    }
+}
+
 fn rand_coeffs(r: &mut Rng, n: usize) -> Vec<i32> {
     (0..n).map(|_| if r.chance(1, 8) { 0 } else { r.range(-3, 3) as i32 }).collect()
 }
@@ -580,7 +740,26 @@ pub fn rand_kind(r: &mut Rng, n: usize, bools: &[usize]) -> KSpec {
     let vs = |r: &mut Rng, k: usize| -> Vec<usize> { (0..k).map(|_| r.below(n as u64) as usize).collect() };
     let bs = |r: &mut Rng, k: usize| -> Vec<usize> { (0..k).map(|_| bools[r.below(bools.len() as u64) as usize]).collect() };
     let ops = ["eq", "ne", "lt", "le", "gt", "ge"];
-    match r.below(22) {
+    match r.below(43) {
+        40..=42 => { let k = r.range(0, 7) as usize; KSpec::AllDiff(vs(r, k)) }
+        22 | 23 => KSpec::Mul(rand_arith_view(r, n), rand_arith_view(r, n), v(r)),
+        24 | 25 => KSpec::Div(rand_arith_view(r, n), rand_arith_view(r, n), v(r)),
+        26 | 27 => KSpec::Mod(rand_arith_view(r, n), rand_arith_view(r, n), v(r)),
+        28 => { let k = if r.chance(1, 12) { 0 } else { r.range(1, 4) as usize }; KSpec::AllEq(vs(r, k)) }
+        29 => KSpec::Between(v(r), v(r), v(r)),
+        30 | 31 => { let k = r.range(0, 4) as usize; let t = if r.chance(1, 2) { VSpec::C(r.range(-2, 3) as i32) } else { rand_view(r, n, 1) }; KSpec::Count(vs(r, k), t, v(r)) }
+        32 | 33 => { let k = r.range(0, 4) as usize; KSpec::Card(["atleast", "atmost", "exactly"][r.below(3) as usize], vs(r, k), r.range(-2, 3) as i32, r.range(-1, 4) as i32) }
+        34 | 35 => { let k = r.range(0, 4) as usize; KSpec::Element(vs(r, k), v(r), v(r)) }
+        36 | 37 => {
+            let k = r.range(1, 3) as usize;
+            let m = r.range(0, 5) as usize;
+            let ts = (0..m).map(|_| (0..k).map(|_| r.range(-4, 5) as i32).collect()).collect();
+            KSpec::Table(vs(r, k), ts)
+        }
+        38 | 39 => {
+            let els = if r.chance(1, 2) { None } else { Some((SIMP_OPS[r.below(6) as usize], v(r), r.range(-4, 5) as i32)) };
+            KSpec::Ite(COND_OPS[r.below(4) as usize], v(r), r.range(-4, 5) as i32, SIMP_OPS[r.below(6) as usize], v(r), r.range(-4, 5) as i32, els)
+        }
         0 | 1 => KSpec::Leq(rand_view(r, n, 1), rand_view(r, n, 1)),
         2 => KSpec::Eq(rand_view(r, n, 1), rand_view(r, n, 1)),
         3 => KSpec::Neq(rand_view(r, n, 1), rand_view(r, n, 1)),
@@ -611,12 +790,14 @@ pub fn suite_prune(out: &mut Out, seed: u64, count: u64) {
         out.case(&format!("pr{i}"));
         let mut sc = StoreCase::new();
         let n = r.range(2, 4) as usize;
-        let (lo, hi) = if r.chance(1, 6) { (-9, 9) } else { (-4, 5) };
+        let (lo, hi) = match r.below(24) { 0..=3 => (-9, 9), 4 => (0, 26), 5 => (1, 14), _ => (-4, 5) };
+        if lo >= 0 { out.stat("prune.nonneg-universe"); }
         for _ in 0..n { let d = rand_dom(&mut r, lo, hi); sc.add_var(out, &d); }
         let nb = r.range(1, 3) as usize;
         let mut bools = vec![];
         for _ in 0..nb { let d = rand_bool_dom(&mut r); sc.add_var(out, &d); bools.push(sc.ids.len() - 1); }
-        let k = rand_kind(&mut r, n, &bools);
+        // the non-negative universes exist for the remainder propagator (sampling branches)
+        let k = if lo >= 0 && r.chance(2, 3) { KSpec::Mod(rand_view_nostep(&mut r, n, 0), rand_view_nostep(&mut r, n, 0), r.below(n as u64) as usize) } else { rand_kind(&mut r, n, &bools) };
         if out.samples.len() < 3 { out.samples.push(k.tokens()); }
         let rounds = if r.chance(1, 3) { r.range(2, 4) } else { 1 };
         for round in 0..rounds {
@@ -731,6 +912,50 @@ pub fn suite_prune_exhaustive(out: &mut Out, universe: i32, shard: u64, shards: 
     kinds.push((KSpec::Abs(VSpec::Plus(1, Box::new(v(0))), 1), vec![false, false]));
     kinds.push((KSpec::Min(vec![0, 1], 2), vec![false, false, false]));
     kinds.push((KSpec::Max(vec![0, 1], 2), vec![false, false, false]));
+    kinds.push((KSpec::Mul(v(0), v(1), 2), vec![false, false, false]));
+    kinds.push((KSpec::Mul(VSpec::Times(-2, Box::new(v(0))), VSpec::Plus(1, Box::new(v(1))), 2), vec![false, false, false]));
+    kinds.push((KSpec::Mul(v(0), VSpec::C(-2), 1), vec![false, false]));
+    kinds.push((KSpec::Mul(v(0), v(0), 1), vec![false, false]));
+    kinds.push((KSpec::Div(v(0), v(1), 2), vec![false, false, false]));
+    kinds.push((KSpec::Div(VSpec::Times(2, Box::new(v(0))), VSpec::Plus(2, Box::new(v(1))), 2), vec![false, false, false]));
+    kinds.push((KSpec::Div(v(0), VSpec::C(-2), 1), vec![false, false]));
+    kinds.push((KSpec::Mod(v(0), v(1), 2), vec![false, false, false]));
+    kinds.push((KSpec::Mod(VSpec::Plus(3, Box::new(v(0))), VSpec::Plus(3, Box::new(v(1))), 2), vec![false, false, false]));
+    kinds.push((KSpec::Mod(v(0), VSpec::C(2), 1), vec![false, false]));
+    kinds.push((KSpec::AllEq(vec![0, 1, 2]), vec![false, false, false]));
+    kinds.push((KSpec::AllEq(vec![0]), vec![false]));
+    kinds.push((KSpec::AllEq(vec![]), vec![false]));
+    kinds.push((KSpec::AllDiff(vec![0, 1]), vec![false, false]));
+    kinds.push((KSpec::AllDiff(vec![0, 1, 2]), vec![false, false, false]));
+    kinds.push((KSpec::AllDiff(vec![0, 1, 2, 3]), vec![false, false, false, false]));
+    kinds.push((KSpec::AllDiff(vec![0, 1, 0]), vec![false, false]));
+    kinds.push((KSpec::AllDiff(vec![0]), vec![false]));
+    kinds.push((KSpec::Between(0, 1, 2), vec![false, false, false]));
+    kinds.push((KSpec::Between(0, 0, 1), vec![false, false]));
+    kinds.push((KSpec::Count(vec![0, 1], v(2), 3), vec![false, false, false, false]));
+    kinds.push((KSpec::Count(vec![0, 1, 2], VSpec::C(0), 3), vec![false, false, false, false]));
+    kinds.push((KSpec::Count(vec![0, 1], v(2), 2), vec![false, false, false]));
+    kinds.push((KSpec::Count(vec![0, 1, 0], VSpec::C(1), 1), vec![false, false]));
+    for ty in ["atleast", "atmost", "exactly"] {
+        for cnt in [0, 1, 2, 3] {
+            kinds.push((KSpec::Card(ty, vec![0, 1, 2], 0, cnt), vec![false, false, false]));
+        }
+        kinds.push((KSpec::Card(ty, vec![0, 1, 0], 1, 2), vec![false, false]));
+    }
+    kinds.push((KSpec::Element(vec![0, 1], 2, 3), vec![false, false, false, false]));
+    kinds.push((KSpec::Element(vec![0, 1, 0], 2, 1), vec![false, false, false]));
+    kinds.push((KSpec::Element(vec![0, 1], 0, 1), vec![false, false]));
+    kinds.push((KSpec::Table(vec![0, 1], vec![vec![-1, 1], vec![0, 0], vec![1, -1], vec![1, 0]]), vec![false, false]));
+    kinds.push((KSpec::Table(vec![0, 1, 2], vec![vec![-1, 0, 1], vec![1, 1, 1], vec![0, -1, 0], vec![1, 0, -1]]), vec![false, false, false]));
+    kinds.push((KSpec::Table(vec![0, 0], vec![vec![0, 0], vec![1, -1]]), vec![false]));
+    kinds.push((KSpec::Table(vec![0, 1], vec![]), vec![false, false]));
+    for cop in COND_OPS {
+        for top in SIMP_OPS {
+            kinds.push((KSpec::Ite(cop, 0, 0, top, 1, 0, None), vec![false, false]));
+            kinds.push((KSpec::Ite(cop, 0, 0, top, 1, 0, Some((SIMP_OPS[(top.len() + cop.len() + top.as_bytes()[0] as usize) % 6], 1, 1))), vec![false, false]));
+        }
+    }
+    kinds.push((KSpec::Ite("eq", 0, 1, "ne", 0, 1, Some(("gt", 1, 0))), vec![false, false]));
     let mut n = 0u64;
     for (k, kinds_bool) in &kinds {
         let choices: Vec<&Vec<Vec<i32>>> = kinds_bool.iter().map(|b| if *b { &bdoms } else { &doms }).collect();
@@ -829,6 +1054,43 @@ pub fn parse_kind(ws: &[&str]) -> Option<KSpec> {
             let xs = nats(&ws[2..2 + n]);
             let r: usize = ws[2 + n].parse().ok()?;
             Some(match ws[0] { "and" => KSpec::And(xs, r), "or" => KSpec::Or(xs, r), "min" => KSpec::Min(xs, r), _ => KSpec::Max(xs, r) })
+        }
+        "mul" | "div" | "mod" => {
+            let (x, r) = parse_view(&ws[1..])?;
+            let (y, r) = parse_view(r)?;
+            let s: usize = r[0].parse().ok()?;
+            Some(match ws[0] { "mul" => KSpec::Mul(x, y, s), "div" => KSpec::Div(x, y, s), _ => KSpec::Mod(x, y, s) })
+        }
+        "alleq" => { let n: usize = ws[1].parse().ok()?; Some(KSpec::AllEq(nats(&ws[2..2 + n]))) }
+        "alldiff" => { let n: usize = ws[1].parse().ok()?; Some(KSpec::AllDiff(nats(&ws[2..2 + n]))) }
+        "between" => Some(KSpec::Between(ws[1].parse().ok()?, ws[2].parse().ok()?, ws[3].parse().ok()?)),
+        "count" => {
+            let n: usize = ws[1].parse().ok()?;
+            let xs = nats(&ws[2..2 + n]);
+            let (t, r) = parse_view(&ws[2 + n..])?;
+            Some(KSpec::Count(xs, t, r[0].parse().ok()?))
+        }
+        "atleast" | "atmost" | "exactly" => {
+            let ty = ["atleast", "atmost", "exactly"].into_iter().find(|o| *o == ws[0])?;
+            let n: usize = ws[1].parse().ok()?;
+            Some(KSpec::Card(ty, nats(&ws[2..2 + n]), ws[2 + n].parse().ok()?, ws[3 + n].parse().ok()?))
+        }
+        "element" => {
+            let n: usize = ws[1].parse().ok()?;
+            Some(KSpec::Element(nats(&ws[2..2 + n]), ws[2 + n].parse().ok()?, ws[3 + n].parse().ok()?))
+        }
+        "table" => {
+            let n: usize = ws[1].parse().ok()?;
+            let xs = nats(&ws[2..2 + n]);
+            let m: usize = ws[2 + n].parse().ok()?;
+            let ts = (0..m).map(|j| ints(&ws[3 + n + j * n..3 + n + (j + 1) * n])).collect();
+            Some(KSpec::Table(xs, ts))
+        }
+        "ite" => {
+            let cop = COND_OPS.into_iter().find(|o| *o == ws[1])?;
+            let top = SIMP_OPS.into_iter().find(|o| *o == ws[4])?;
+            let els = if ws[7] == "noelse" { None } else { Some((SIMP_OPS.into_iter().find(|o| *o == ws[8])?, ws[9].parse().ok()?, ws[10].parse().ok()?)) };
+            Some(KSpec::Ite(cop, ws[2].parse().ok()?, ws[3].parse().ok()?, top, ws[5].parse().ok()?, ws[6].parse().ok()?, els))
         }
         "not" => Some(KSpec::Not(ws[1].parse().ok()?, ws[2].parse().ok()?)),
         "xor" => Some(KSpec::Xor(ws[1].parse().ok()?, ws[2].parse().ok()?, ws[3].parse().ok()?)),
